@@ -157,7 +157,7 @@ impl Schema {
                     seen.push(v);
                 }
                 if let Var::ts(p) = v {
-                    if !KNOWN_TS.contains(&p.as_str()) {
+                    if !KNOWN_TS.contains(&p.as_str()) && !p.starts_with('%') {
                         errs.push(format!("unknown timestamp pattern {p:?}"));
                     }
                 }
